@@ -109,12 +109,20 @@ def run_sync(ctx: Ctx, cfg: dict) -> dict:
                 return []
             if st["pos"] < close_off:
                 return [("chunk", k) for k in range(1, close_off - st["pos"] + 1)]
-            return [("eof",)]
+            # the peer's close is either a FIN or a reset (pending socket error + error on the next read of an empty queue)
+            return [("eof",), ("reset",)] if cfg.get("resets") else [("eof",)]
 
         def apply(o: tuple) -> None:
             if o[0] == "chunk":
                 sock.rx.put(stream[st["pos"]:st["pos"] + o[1]])
                 st["pos"] += o[1]
+            elif o[0] == "reset":
+                import errno as _errno
+
+                sock.so_error = _errno.ECONNRESET
+                sock.rx.error = ConnectionResetError(_errno.ECONNRESET, "reset by peer")
+                sock.rx.sticky_error = True
+                st["eof"] = True
             else:
                 sock.rx.eof = True
                 st["eof"] = True
@@ -223,7 +231,7 @@ def sync_configs(tier: str) -> list[dict]:
                             closes = [c for c in closes if c in marks]
                         for close in closes:
                             out.append({"kind": "sync", "subject": subject, "proto": proto, "rsize": rsize, "n": n, "partial": partial, "close": close,
-                                        "calls": 4 if tier == "quick" else 6})
+                                        "calls": 4 if tier == "quick" else 6, "resets": subject == "client" and (tier == "thorough" or rsize == 64)})
     return out
 
 
@@ -319,6 +327,9 @@ def run_async(ctx: Ctx, cfg: dict) -> dict:
 
 ASYNC_HISTORIES = [
     [("recv", None)] * 5,
+    # zero-timeout polls between receives: a packet that is already buffered may be reported late, never dropped
+    [("recv", None), ("iter", 0), ("iter", 0), ("recv", None), ("recv", None)],
+    [("iter", 0), ("recv", None), ("iter", 0), ("recv", None), ("iter", 0)],
     [("recv", None), ("iter", 0.5), ("recv", None), ("iter", 0.5), ("recv", None)],
     [("iter", 0.5), ("iter", 0.5), ("recv", None), ("recv", None), ("iter", 0.5)],
 ]
@@ -338,6 +349,8 @@ def async_configs(tier: str) -> list[dict]:
                             cutsets += list(itertools.combinations(range(1, close), 2))
                         for cuts in cutsets:
                             hs = ASYNC_HISTORIES if subject == "client" else ASYNC_HISTORIES[:1]
+                            if tier == "quick" and subject == "client" and cuts and n < 2:
+                                hs = ASYNC_HISTORIES[:2]
                             for h in hs:
                                 out.append({"kind": "async", "subject": subject, "proto": proto, "rsize": 64, "n": n, "partial": partial, "close": close,
                                             "cuts": list(cuts), "history": [list(x) for x in h]})
